@@ -25,7 +25,10 @@ fn profiles(k: u32) -> Vec<(f32, f32, f32, f32)> {
     match k {
         0 => vec![(1.0, -1.0, 1.0, 0.0), (1.0, 1.0, 1.0, 0.0)],
         1 => vec![(0.5, -1.0, 1.0, -0.5), (1.5, 0.0, 1.0, 0.0), (0.5, 1.0, 1.0, 0.5)],
-        _ => vec![(2.0, -0.5, 0.0, -1.0), (3.0, -0.5, 1.0, -1.0), (3.0, 0.5, 1.0, 1.0), (2.0, 0.5, 0.0, 1.0)],
+        2 => vec![(2.0, -0.5, 0.0, -1.0), (3.0, -0.5, 1.0, -1.0), (3.0, 0.5, 1.0, 1.0), (2.0, 0.5, 0.0, 1.0)],
+        // hard edges: a profile point repeated with a second normal (flat-shaded bicone; drum with its flat ends in the profile)
+        3 => vec![(0.0, -1.0, 1.0, -1.0), (1.0, 0.0, 1.0, -1.0), (1.0, 0.0, 1.0, 1.0), (0.0, 1.0, 1.0, 1.0)],
+        _ => vec![(0.0, -1.0, 0.0, -1.0), (1.0, -1.0, 0.0, -1.0), (1.0, -1.0, 1.0, 0.0), (1.0, 1.0, 1.0, 0.0), (1.0, 1.0, 0.0, 1.0), (0.0, 1.0, 0.0, 1.0)],
     }
 }
 
@@ -94,7 +97,8 @@ fn closed(s: &Shape) -> Option<i64> {
         Shape::Tetra | Shape::Octa | Shape::Dodeca | Shape::Icosa | Shape::Box3 { .. } | Shape::Sphere { .. } | Shape::Capsule { .. } => Some(2),
         Shape::Torus { .. } => Some(0),
         Shape::Cone { capped, .. } | Shape::Cyl { capped, .. } => if capped { Some(2) } else { None },
-        Shape::Lathe { capped, az0, az1, .. } | Shape::LatheLit { capped, az0, az1, .. } => if capped && az1 - az0 == 8 { Some(2) } else { None },
+        // (profiles 3 and 4 start and end on the axis: closed with or without caps)
+        Shape::Lathe { capped, az0, az1, profile, .. } | Shape::LatheLit { capped, az0, az1, profile, .. } => if (capped || profile >= 3) && az1 - az0 == 8 { Some(2) } else { None },
     }
 }
 
@@ -245,7 +249,7 @@ fn shapes(quick: bool) -> Vec<Shape> {
     v.push(Shape::Sphere { sec: 100, seg: 60, r: 3.0 });
     v.push(Shape::Torus { maj: 6, min: 257, rmaj: 3.0, rmin: 1.0 });
     v.push(Shape::Cone { sec: 5, seg: 300, capped: true, rb: 1.0, ra: 0.5 });
-    for profile in 0..3 { for sec in 3..=msec.min(12) { for (az0, az1) in [(0, 8), (0, 4), (0, 2), (1, 3), (-2, 5), (0, 7), (3, 6), (4, 8), (5, 13), (-4, -1)] { for capped in [false, true] {
+    for profile in 0..5 { for sec in 3..=msec.min(12) { for (az0, az1) in [(0, 8), (0, 4), (0, 2), (1, 3), (-2, 5), (0, 7), (3, 6), (4, 8), (5, 13), (-4, -1)] { for capped in [false, true] {
         v.push(Shape::Lathe { profile, sec, az0, az1, capped });
         if sec % 3 == 0 { v.push(Shape::LatheLit { profile, sec, az0, az1, capped }); }
     }}}}
